@@ -82,7 +82,7 @@ def geometric_ratio(params):
     """r = e^{scale} of the two-sided geometric pmf P[k] ~ r^|k|, read off the sampler: the step function
     u -> randomise(0) jumps from 1 to 0 at u* = 1/2 + r/(1+r) (u in (1/2, 1)); located on the double grid."""
     def out(u):
-        m = M.Geometric(**params, random_state=seams.ScriptedSystemRandom([u]))
+        m = K2.mk("Geometric", params, random_state=seams.ScriptedSystemRandom([u]))
         return int(quiet(m.randomise, 0))
     top = 1.0 - 2 ** -53
     if out(top) != 0:
@@ -201,7 +201,7 @@ def measure(pt):
     """reported moments + the law built from the sampler's measured scale"""
     cls = getattr(M, pt.mech)
     p, v = pt.params, pt.value
-    m = cls(**p)
+    m = K2.mk(pt.mech, p)        # a fresh object, or the live one inside `Live.installed()`
     for name in ("bias", "variance", "mse"):
         pt.rep[name] = call(getattr(m, name), v)
     x = d(v)
@@ -524,6 +524,101 @@ def run_points(ctx, pts, mono=True):
                     "measured_on_sampler": {k: v for k, v in pt.meas.items() if k != "r_exact"}})
 
 
+
+# =========================================================================================== live-object sequences
+
+LIVE_MECHS = ("Laplace", "LaplaceTruncated", "LaplaceFolded", "LaplaceBoundedDomain", "Geometric", "Gaussian",
+              "GaussianAnalytic", "Uniform")
+
+
+def easier(r, mech, p):
+    """new valid parameters demanding LESS noise (the other direction of `c02.harder`)"""
+    a = {}
+    k = r.choice([k for k in ("epsilon", "sensitivity", "delta") if k in p])
+    if k == "epsilon":
+        a[k] = min(1.0 if mech == "Gaussian" else 50.0, p[k] * r.choice([2.0, 4.0]))
+    elif k == "sensitivity":
+        a[k] = max(1, p[k] // 2) if mech == "Geometric" else p[k] / r.choice([2.0, 10.0])
+    else:
+        hi = 0.5 if mech == "Uniform" else 0.99
+        a[k] = min(hi, p[k] * 2) if p[k] > 0 else 0.25
+    return {k: v for k, v in a.items() if v != p[k]}
+
+
+def live_case(ctx, mech, p1, assigned, value, warm_seed, ops):
+    """construct(p1) -> warm-up calls -> assign -> the moments the LIVE object reports must be the moments of the law its
+    sampler now draws from (scale measured again on the live object)"""
+    from ..core import Ctx
+    p2 = dict(p1)
+    p2.update(assigned)
+    fresh = Pt(mech, p2, value)
+    measure(fresh)
+    s0 = Ctx(PROPERTY, ctx.tier, 0)
+    direct(s0, fresh)
+    if s0.violations:
+        return "fresh-fails"                    # an (open) finding of the formula itself: the ordinary points report it
+    live, ran = K2.live_sequence(mech, p1, assigned, warm_seed, ops)
+    pt = Pt(mech, p2, value)
+    with live.installed():
+        measure(pt)
+    s1 = Ctx(PROPERTY, ctx.tier, 0)
+    direct(s1, pt)
+    rep_same = all(feq(pt.rep[k][0], fresh.rep[k][0], 1e-9, 1e-300) for k in ("bias", "variance"))
+    if s1.violations:
+        v = s1.violations[0]
+        emit(ctx, f"C19:{mech}:moments-stale-after-parameter-change",
+             f"live object: {mech}({p1}) -> {ran} -> assign {assigned}: " + v["what"],
+             {"mech": mech, "params": p2, "value": value,
+              "live": {"constructed_with": p1, "assigned": assigned, "warm_seed": warm_seed, "ops": ops}})
+        return "stale-violates"
+    if not rep_same:
+        ctx.count("live_reported_differs_from_fresh_but_matches_its_sampler")
+        return "stale-consistent"
+    return "same"
+
+
+def run_live(ctx):
+    r = ctx.fork("live")
+    n = ctx.budget(160, 3000)
+    for i in range(n):
+        mech = LIVE_MECHS[i % len(LIVE_MECHS)]
+        rr = r.fork(i)
+        pt0 = g_point(rr, mech)
+        p1 = pt0.params
+        if "lower" in p1:
+            lo, hi = p1["lower"], p1["upper"]
+            if not (math.isfinite(lo) and math.isfinite(hi)) or lo == hi:
+                continue
+            value = lo + (hi - lo) * rr.choice([0.5, rr.u01()])
+        else:
+            value = pt0.value
+        if mech == "Geometric":
+            a = {"epsilon": p1["epsilon"] * rr.choice([0.25, 0.5, 2.0, 4.0])} if rr.chance(0.6) else \
+                {"sensitivity": int(p1["sensitivity"]) * 2 + 1}
+            a = {k: (min(50.0, max(1e-3, v)) if k == "epsilon" else v) for k, v in a.items()}
+        else:
+            a = K2.harder(rr, mech, p1) if rr.chance(0.5) else easier(rr, mech, p1)
+            a.pop("upper", None)
+        if not a:
+            continue
+        ops = ["randomise"] + [o for o in ("variance", "bias", "mse") if rr.chance(0.4)]
+        if rr.chance(0.3):
+            ops = ops[1:] + ops[:1]
+        try:
+            res = live_case(ctx, mech, p1, a, value, rr.next(), ops)
+        except seams.ScriptExhausted:
+            ctx.count("live_unmeasurable")
+            continue
+        except (ArithmeticError, ValueError, TypeError, RecursionError) as e:
+            ctx.disagree(f"live.{mech}.raises", {"constructed_with": p1, "assigned": a, "value": value}, "moments",
+                         f"{type(e).__name__}: {e}")
+            continue
+        ctx.case(("live", mech, i) if res != "same" else None)
+        ctx.count("live_" + res)
+        if res in ("same", "stale-consistent"):
+            ctx.trace_ok()
+
+
 def check(ctx):
     pts = gen_points(ctx, ctx.budget(1200, 30000))
     for h in getattr(ctx, "hints", []) or []:
@@ -537,6 +632,7 @@ def check(ctx):
                 p["sensitivity"] = int(p["sensitivity"])
             pts.insert(0, Pt(mech, p, uj(inp.get("value", 0.0))))
     run_points(ctx, pts)
+    run_live(ctx)
 
 
 def replay(ctx, data):
@@ -550,6 +646,15 @@ def replay(ctx, data):
         v = int(v)
     pt = Pt(dd["mech"], p, v)
     before = len(ctx.violations)
+    if "live" in dd:
+        lv = dd["live"]
+        p1 = {k: uj(x) for k, x in lv["constructed_with"].items()}
+        asg = {k: uj(x) for k, x in lv["assigned"].items()}
+        if dd["mech"] == "Geometric":
+            p1["sensitivity"] = int(p1["sensitivity"])
+            if "sensitivity" in asg:
+                asg["sensitivity"] = int(asg["sensitivity"])
+        return live_case(ctx, dd["mech"], p1, asg, v, int(lv["warm_seed"]), list(lv["ops"])) == "stale-violates"
     if "changed" in dd:
         # monotonicity record
         cls = getattr(M, pt.mech)
